@@ -12,6 +12,10 @@ from hypothesis import strategies as st
 from nv import problems as pr
 
 NN_KW = dict(hidden_layer_sizes=(8,), max_iter=25)
+# for the statistical ensembles (C04): a network good enough not to carve a
+# mode out of the bound (the tiny one does, which is a convergence failure of
+# the harness's own cost saving, not of nautilus)
+NN_MEDIUM = dict(hidden_layer_sizes=(50, 20), max_iter=2000)
 
 
 # ------------------------------------------------------------------ configs
@@ -160,7 +164,9 @@ class Lab:
             split_threshold=cfg['split_threshold'],
             periodic=None if cfg['periodic'] is None else np.array(
                 cfg['periodic'], dtype=int),
-            n_networks=cfg['n_networks'], neural_network_kwargs=dict(NN_KW),
+            n_networks=cfg['n_networks'],
+            neural_network_kwargs=dict(NN_MEDIUM if cfg.get('nn') == 'medium'
+                                       else NN_KW),
             n_batch=cfg['n_batch'], n_like_new_bound=cfg['n_like_new_bound'],
             vectorized=cfg['vectorized'], pass_dict=pr.pass_dict_for(spec),
             pool=self.pool_arg(), seed=cfg['seed'],
